@@ -1,3 +1,4 @@
+import NettyVerif.Model.Life
 import NettyVerif.Model.Panic
 /-! # C07 — Handler panics and transport failures are contained and routed as exceptions -/
 namespace NettyVerif.C07
@@ -89,6 +90,19 @@ example : invoke [h1, h2, h3] none .read false =
 example : (invoke [h1, h2] none .read false).closedWith = some (.err 7) := by decide
 example : (invoke [h3] (some (.netFatal 1)) .write false).closedWith = some (.netFatal 1) := by decide
 
+/-! ## panics of the active / read handlers on a served channel (lifecycle acceptor) -/
+open NettyVerif.Life in
+/-- a panic of the active handler (or of a read handler) is owed to the exception handlers: the
+    acceptor refuses a further read before the exception was routed, unless the channel was closed
+    meanwhile (then `invokeMethod` drops it); the hand-off barrier is released all the same -/
+theorem C07_served_channel_panics_are_routed :
+    Life.run {} [.activeBegin, .activePanic, .readBegin] = none ∧
+    (Life.run {} [.activeBegin, .activePanic, .handOut, .exception, .readBegin]).isSome = true ∧
+    (Life.run {} [.activeBegin, .activePanic, .closeWin 1, .readBegin]).isSome = true ∧
+    Life.run {} [.activeBegin, .activeEnd, .readBegin, .readEnd false, .readBegin] = none ∧
+    (Life.run {} [.activeBegin, .activeEnd, .readBegin, .readEnd false, .exception, .readBegin]).isSome = true ∧
+    Life.run {} [.activeBegin, .activeEnd, .exception] = none := by decide
+
 end NettyVerif.C07
 
 #print axioms NettyVerif.C07.C07_never_escapes
@@ -96,3 +110,4 @@ end NettyVerif.C07
 #print axioms NettyVerif.C07.C07_routed_once_in_order
 #print axioms NettyVerif.C07.C07_closed_channel_silent
 #print axioms NettyVerif.C07.C07_no_panic_no_exception
+#print axioms NettyVerif.C07.C07_served_channel_panics_are_routed
